@@ -8,7 +8,7 @@ from __future__ import annotations
 
 from .term import AnalysisError, AbstractValue
 from .poly import Poly, Rat, P, divide_exact, known_nonzero
-from .interp import Interp, World, enumerate_paths, Raised
+from .interp import Interp, World, enumerate_paths, Raised, Infeasible
 
 
 class AlgState:
@@ -184,6 +184,9 @@ class FieldSym(AbstractValue):
         if op == "mod" and not reflected:
             if isinstance(other, int) and self.cls.modulus == other:
                 return FieldSym(self.r, self.cls, True)      # reduction modulo the field prime: same element
+            if isinstance(other, int) and not isinstance(other, bool) and other > 0:
+                # reduction by another modulus: not a function of the residue class — an unrelated, unreduced value
+                return FieldSym(Rat(Poly.var(f"(({self.r.n!r})/({self.r.d!r}) mod {other:#x})"[:120])), self.cls, False)
             raise AnalysisError(f"% {other!r} on a symbolic field element")
         o = self._lift(other)
         if o is None:
@@ -215,7 +218,9 @@ class FieldSym(AbstractValue):
             return PolyCond(self.r - o, True)
         if op == "!=":
             return PolyCond(self.r - o, False)
-        raise AnalysisError(f"ordering comparison {op} on a symbolic field element")
+        # ordering of field elements is not a field notion: an opaque predicate (both outcomes are explored)
+        from .term import Term
+        return Term("field_order", (op, repr(self), repr(other)), "bool")
 
     def v_truth(self, it):
         if self.cls.modulus is not None and not self.reduced:
@@ -272,12 +277,15 @@ def alg_paths(world, run, alg: AlgState, **kw):
         except Raised as r:
             p.outcome = "raise"
             p.value = r.exc
+        except Infeasible:
+            p.outcome = "infeasible"
         p.facts = list(it.fact_log)
         p.events = it.events
         p.decisions = list(orc.trace)
         p.interp = it
         p.alg = it.alg
-        paths.append(p)
+        if p.outcome != "infeasible":
+            paths.append(p)
         if len(paths) > 500:
             raise AnalysisError("more than 500 algebraic paths")
         for i in range(len(prefix), len(orc.trace)):
